@@ -488,10 +488,16 @@ func (s Subtitles) WriteToWebVTT(o io.Writer) (err error) {
 	}
 	c = append(c, []byte("\n\n")...)
 
+	// Add styles, sorted by id so that the output doesn't depend on the map's iteration order
 	var style []string
-	for _, s := range s.Styles {
-		if s.InlineStyle != nil {
-			style = append(style, s.InlineStyle.WebVTTStyles...)
+	var styleIDs []string
+	for id := range s.Styles {
+		styleIDs = append(styleIDs, id)
+	}
+	sort.Strings(styleIDs)
+	for _, id := range styleIDs {
+		if st := s.Styles[id]; st != nil && st.InlineStyle != nil {
+			style = append(style, st.InlineStyle.WebVTTStyles...)
 		}
 	}
 
@@ -508,37 +514,41 @@ func (s Subtitles) WriteToWebVTT(o io.Writer) (err error) {
 	sort.Strings(k)
 	for _, id := range k {
 		c = append(c, []byte("Region: id="+s.Regions[id].ID)...)
-		if s.Regions[id].InlineStyle.WebVTTLines != 0 {
+		inlineStyle := s.Regions[id].InlineStyle
+		if inlineStyle == nil {
+			inlineStyle = &StyleAttributes{}
+		}
+		if inlineStyle.WebVTTLines != 0 {
 			c = append(c, bytesSpace...)
-			c = append(c, []byte("lines="+strconv.Itoa(s.Regions[id].InlineStyle.WebVTTLines))...)
+			c = append(c, []byte("lines="+strconv.Itoa(inlineStyle.WebVTTLines))...)
 		} else if s.Regions[id].Style != nil && s.Regions[id].Style.InlineStyle != nil && s.Regions[id].Style.InlineStyle.WebVTTLines != 0 {
 			c = append(c, bytesSpace...)
 			c = append(c, []byte("lines="+strconv.Itoa(s.Regions[id].Style.InlineStyle.WebVTTLines))...)
 		}
-		if s.Regions[id].InlineStyle.WebVTTRegionAnchor != "" {
+		if inlineStyle.WebVTTRegionAnchor != "" {
 			c = append(c, bytesSpace...)
-			c = append(c, []byte("regionanchor="+s.Regions[id].InlineStyle.WebVTTRegionAnchor)...)
+			c = append(c, []byte("regionanchor="+inlineStyle.WebVTTRegionAnchor)...)
 		} else if s.Regions[id].Style != nil && s.Regions[id].Style.InlineStyle != nil && s.Regions[id].Style.InlineStyle.WebVTTRegionAnchor != "" {
 			c = append(c, bytesSpace...)
 			c = append(c, []byte("regionanchor="+s.Regions[id].Style.InlineStyle.WebVTTRegionAnchor)...)
 		}
-		if s.Regions[id].InlineStyle.WebVTTScroll != "" {
+		if inlineStyle.WebVTTScroll != "" {
 			c = append(c, bytesSpace...)
-			c = append(c, []byte("scroll="+s.Regions[id].InlineStyle.WebVTTScroll)...)
+			c = append(c, []byte("scroll="+inlineStyle.WebVTTScroll)...)
 		} else if s.Regions[id].Style != nil && s.Regions[id].Style.InlineStyle != nil && s.Regions[id].Style.InlineStyle.WebVTTScroll != "" {
 			c = append(c, bytesSpace...)
 			c = append(c, []byte("scroll="+s.Regions[id].Style.InlineStyle.WebVTTScroll)...)
 		}
-		if s.Regions[id].InlineStyle.WebVTTViewportAnchor != "" {
+		if inlineStyle.WebVTTViewportAnchor != "" {
 			c = append(c, bytesSpace...)
-			c = append(c, []byte("viewportanchor="+s.Regions[id].InlineStyle.WebVTTViewportAnchor)...)
+			c = append(c, []byte("viewportanchor="+inlineStyle.WebVTTViewportAnchor)...)
 		} else if s.Regions[id].Style != nil && s.Regions[id].Style.InlineStyle != nil && s.Regions[id].Style.InlineStyle.WebVTTViewportAnchor != "" {
 			c = append(c, bytesSpace...)
 			c = append(c, []byte("viewportanchor="+s.Regions[id].Style.InlineStyle.WebVTTViewportAnchor)...)
 		}
-		if s.Regions[id].InlineStyle.WebVTTWidth != "" {
+		if inlineStyle.WebVTTWidth != "" {
 			c = append(c, bytesSpace...)
-			c = append(c, []byte("width="+s.Regions[id].InlineStyle.WebVTTWidth)...)
+			c = append(c, []byte("width="+inlineStyle.WebVTTWidth)...)
 		} else if s.Regions[id].Style != nil && s.Regions[id].Style.InlineStyle != nil && s.Regions[id].Style.InlineStyle.WebVTTWidth != "" {
 			c = append(c, bytesSpace...)
 			c = append(c, []byte("width="+s.Regions[id].Style.InlineStyle.WebVTTWidth)...)
@@ -569,46 +579,48 @@ func (s Subtitles) WriteToWebVTT(o io.Writer) (err error) {
 		c = append(c, []byte(formatDurationWebVTT(item.EndAt))...)
 
 		// Add styles
-		if item.InlineStyle != nil {
-			if item.InlineStyle.WebVTTAlign != "" {
-				c = append(c, bytesSpace...)
-				c = append(c, []byte("align:"+item.InlineStyle.WebVTTAlign)...)
-			} else if item.Style != nil && item.Style.InlineStyle != nil && item.Style.InlineStyle.WebVTTAlign != "" {
-				c = append(c, bytesSpace...)
-				c = append(c, []byte("align:"+item.Style.InlineStyle.WebVTTAlign)...)
-			}
-			if item.InlineStyle.WebVTTLine != "" {
-				c = append(c, bytesSpace...)
-				c = append(c, []byte("line:"+item.InlineStyle.WebVTTLine)...)
-			} else if item.Style != nil && item.Style.InlineStyle != nil && item.Style.InlineStyle.WebVTTLine != "" {
-				c = append(c, bytesSpace...)
-				c = append(c, []byte("line:"+item.Style.InlineStyle.WebVTTLine)...)
-			}
-			if item.InlineStyle.WebVTTPosition != "" {
-				c = append(c, bytesSpace...)
-				c = append(c, []byte("position:"+item.InlineStyle.WebVTTPosition)...)
-			} else if item.Style != nil && item.Style.InlineStyle != nil && item.Style.InlineStyle.WebVTTPosition != "" {
-				c = append(c, bytesSpace...)
-				c = append(c, []byte("position:"+item.Style.InlineStyle.WebVTTPosition)...)
-			}
-			if item.Region != nil {
-				c = append(c, bytesSpace...)
-				c = append(c, []byte("region:"+item.Region.ID)...)
-			}
-			if item.InlineStyle.WebVTTSize != "" {
-				c = append(c, bytesSpace...)
-				c = append(c, []byte("size:"+item.InlineStyle.WebVTTSize)...)
-			} else if item.Style != nil && item.Style.InlineStyle != nil && item.Style.InlineStyle.WebVTTSize != "" {
-				c = append(c, bytesSpace...)
-				c = append(c, []byte("size:"+item.Style.InlineStyle.WebVTTSize)...)
-			}
-			if item.InlineStyle.WebVTTVertical != "" {
-				c = append(c, bytesSpace...)
-				c = append(c, []byte("vertical:"+item.InlineStyle.WebVTTVertical)...)
-			} else if item.Style != nil && item.Style.InlineStyle != nil && item.Style.InlineStyle.WebVTTVertical != "" {
-				c = append(c, bytesSpace...)
-				c = append(c, []byte("vertical:"+item.Style.InlineStyle.WebVTTVertical)...)
-			}
+		inlineStyle := item.InlineStyle
+		if inlineStyle == nil {
+			inlineStyle = &StyleAttributes{}
+		}
+		if inlineStyle.WebVTTAlign != "" {
+			c = append(c, bytesSpace...)
+			c = append(c, []byte("align:"+inlineStyle.WebVTTAlign)...)
+		} else if item.Style != nil && item.Style.InlineStyle != nil && item.Style.InlineStyle.WebVTTAlign != "" {
+			c = append(c, bytesSpace...)
+			c = append(c, []byte("align:"+item.Style.InlineStyle.WebVTTAlign)...)
+		}
+		if inlineStyle.WebVTTLine != "" {
+			c = append(c, bytesSpace...)
+			c = append(c, []byte("line:"+inlineStyle.WebVTTLine)...)
+		} else if item.Style != nil && item.Style.InlineStyle != nil && item.Style.InlineStyle.WebVTTLine != "" {
+			c = append(c, bytesSpace...)
+			c = append(c, []byte("line:"+item.Style.InlineStyle.WebVTTLine)...)
+		}
+		if inlineStyle.WebVTTPosition != "" {
+			c = append(c, bytesSpace...)
+			c = append(c, []byte("position:"+inlineStyle.WebVTTPosition)...)
+		} else if item.Style != nil && item.Style.InlineStyle != nil && item.Style.InlineStyle.WebVTTPosition != "" {
+			c = append(c, bytesSpace...)
+			c = append(c, []byte("position:"+item.Style.InlineStyle.WebVTTPosition)...)
+		}
+		if item.Region != nil {
+			c = append(c, bytesSpace...)
+			c = append(c, []byte("region:"+item.Region.ID)...)
+		}
+		if inlineStyle.WebVTTSize != "" {
+			c = append(c, bytesSpace...)
+			c = append(c, []byte("size:"+inlineStyle.WebVTTSize)...)
+		} else if item.Style != nil && item.Style.InlineStyle != nil && item.Style.InlineStyle.WebVTTSize != "" {
+			c = append(c, bytesSpace...)
+			c = append(c, []byte("size:"+item.Style.InlineStyle.WebVTTSize)...)
+		}
+		if inlineStyle.WebVTTVertical != "" {
+			c = append(c, bytesSpace...)
+			c = append(c, []byte("vertical:"+inlineStyle.WebVTTVertical)...)
+		} else if item.Style != nil && item.Style.InlineStyle != nil && item.Style.InlineStyle.WebVTTVertical != "" {
+			c = append(c, bytesSpace...)
+			c = append(c, []byte("vertical:"+item.Style.InlineStyle.WebVTTVertical)...)
 		}
 
 		// Add new line
